@@ -391,6 +391,31 @@ class Ctx:
         return fails
 
 
+class HardTimeout(Exception):
+    """the code under test did not return within the hard limit"""
+
+
+class time_limit:
+    """with time_limit(seconds): ...   raises HardTimeout in the main thread (SIGALRM)"""
+
+    def __init__(self, seconds):
+        self.seconds = seconds
+
+    def __enter__(self):
+        import signal
+
+        def handler(signum, frame):
+            raise HardTimeout()
+        self.old = signal.signal(signal.SIGALRM, handler)
+        signal.setitimer(signal.ITIMER_REAL, self.seconds)
+
+    def __exit__(self, *a):
+        import signal
+        signal.setitimer(signal.ITIMER_REAL, 0)
+        signal.signal(signal.SIGALRM, self.old)
+        return False
+
+
 def main_wrapper(fn, pid):
     import argparse
     ap = argparse.ArgumentParser()
